@@ -42,7 +42,7 @@ func TestVerifSim(t *testing.T) {
 var classProp = map[string]string{
 	"ack-not-quorum": "C01", "ack-lost-at-install": "C01", "ack-replaced": "C01", "ack-lost-final": "C01",
 	"committed-divergence": "C02", "committed-entry-dropped-at-install": "C02", "chain-broken": "C02", "committed-above-leo": "C02", "committed-regressed": "C02", "replica-unreadable": "C02",
-	"range-overlap": "C03", "retry-range-changed": "C03", "range-shape": "C03", "retry-stored-again": "C03", "conflicting-retry-acked": "C03", "range-not-contiguous": "C03",
+	"range-overlap": "C03", "retry-range-changed": "C03", "range-shape": "C03", "retry-stored-again": "C03", "conflicting-retry-acked": "C03", "range-not-contiguous": "C03", "exact-retry-refused": "C03",
 	"stale-authority-acked": "C04", "older-authority-installed": "C04", "fenced-append-acked": "C04", "stale-authority-acked-after-barrier": "C04",
 }
 
@@ -123,6 +123,9 @@ func drawCfg(r *simkit.Run) cfg {
 		c.InstallBias += 2
 		c.StaleBias += 2
 	}
+	// channels that have lived through earlier incarnations start at a higher epoch
+	// (room for "older epoch, higher term" authorities)
+	c.Epoch0 = 1 + tp.Intn(3)
 	return c
 }
 
@@ -147,7 +150,7 @@ func runWorld(t *testing.T, r *simkit.Run) {
 		for i := 0; i < c.Channels; i++ {
 			name := fmt.Sprintf("c%d", i)
 			q.chans = append(q.chans, &chanState{key: ch.ChannelKey("1:" + name), id: ch.ChannelID{ID: name, Type: 1},
-				auth:        replication.AuthorityID{ChannelEpoch: 1, LeaderTerm: 0, FenceVersion: 1},
+				auth:        replication.AuthorityID{ChannelEpoch: uint64(c.Epoch0), LeaderTerm: 0, FenceVersion: 1},
 				installedOK: map[ch.NodeID]replication.Authority{}, ledger: map[uint64]ledgerEntry{}})
 		}
 		s := &simkit.Scheduler{R: r, MaxSteps: 60 + c.Ops*40, Collect: q.collect, Invariant: q.invariant,
@@ -474,7 +477,15 @@ func (q *qworld) startInstall(ci int, id ch.NodeID, old bool) {
 		om := q.ownerModel(cs, id, n.inc)
 		prev := om.history[len(om.history)-1-q.r.Tape.PickOldestBiased(len(om.history))]
 		auth = prev
-		switch q.r.Tape.Intn(4) {
+		switch q.r.Tape.Intn(5) {
+		case 4: // mixed vector: an earlier channel epoch with a higher leader term and fence version
+			// (authorities are ordered lexicographically, so this one is older)
+			if auth.ID.ChannelEpoch > 1 {
+				auth.ID.ChannelEpoch--
+				auth.ID.LeaderTerm += 1 + uint64(q.r.Tape.Intn(4))
+				auth.ID.FenceVersion += uint64(q.r.Tape.Intn(3))
+				q.r.Probe("install_old_mixed_vector")
+			}
 		case 0, 3: // exactly that earlier authority (an equal re-install is legal, an older one is not)
 		case 1:
 			if auth.ID.LeaderTerm > 1 {
@@ -602,7 +613,15 @@ func (q *qworld) startCommit(ci int, id ch.NodeID, auth replication.Authority) {
 	}
 	op.firstAttempt = !cmd.attempted[vi]
 	cmd.attempted[vi] = true
-	op.leoBefore = q.view(n, cs).leo
+	vBefore := q.view(n, cs)
+	op.leoBefore = vBefore.leo
+	// (same authority only: a stored proposal is bound to the authority it was sealed
+	// under, and the implementation answers a retry under any other authority with a
+	// conflict by design — quorum_log.go loadRetainedProposal)
+	op.heldAcked = exact && cmd.acked && cmd.ackedVariant == 1 && cmd.ackAuth == auth.ID && q.holdsCommand(vBefore, cs, cmd)
+	if op.heldAcked {
+		q.r.Probe("exact_retry_on_holder")
+	}
 	q.busy[okey(id, ci)] = op
 	q.notePoison(cs, op)
 	cs.ops = append(cs.ops, op)
@@ -891,6 +910,15 @@ func (q *qworld) onCommitDone(op *opResult) {
 			// the owner told us it no longer leads under this authority
 			if a, ok := cs.installedOK[op.node]; ok && a.ID == op.auth.ID && n.inc == op.nodeInc {
 				delete(cs.installedOK, op.node)
+			}
+		}
+		// C03: an exact retry of an acknowledged command, on an owner whose durable log
+		// holds the acknowledged range before and after the call, may fail for many
+		// reasons but never with the definite claim "another content is stored under
+		// this command identity"
+		if op.heldAcked && errors.Is(op.err, ch.ErrLogConflict) && n.up && n.inc == op.nodeInc && q.cfg.Regime < 2 && !q.tainted && !q.r.Failed() {
+			if q.holdsCommand(q.view(n, cs), cs, cmd) {
+				q.fail("exact-retry-refused", "", fmt.Sprintf("c%d n%d: exact retry of command %x, acknowledged at [%d..%d] and still in this owner's durable log, was refused with %v", op.channel, op.node, cmd.id[:3], cmd.first, cmd.last, op.err), nil)
 			}
 		}
 		return
